@@ -204,3 +204,247 @@ Section Refinement.
     intros. unfold merge_card. destruct (N.eqb_spec lc bc), (N.eqb_spec rc bc); cbn [negb andb snd]; split; intro H; try discriminate; try tauto.
   Qed.
 End Refinement.
+
+(* ====================================================================== *)
+(* Round 2: the oracle accepts the model's merge observation (list level)  *)
+(* ====================================================================== *)
+From Dolt Require Import C27.Corr.
+
+Section OracleOnModel.
+  (* the executable run uses [enc] as the hash id; it is injective on the rows of the input at hand *)
+  Variable U : list row.
+  Hypothesis enc_inj : forall x y, In x U -> In y U -> enc x = enc y -> x = y.
+
+  Definition rows_in (m : mstate) : Prop := forall r c, In (r, c) m -> In r U.
+  Definition keyed_on (s : store) : Prop := forall k c r, In (k, (c, r)) s -> k = enc r /\ In r U.
+
+  Lemma enc_eqb x y : In x U -> In y U -> (enc x =? enc y) = row_eqb x y.
+  Proof.
+    intros Hx Hy. apply eq_true_iff_eq. rewrite N.eqb_eq, row_eqb_eq. split; [apply enc_inj; assumption|congruence].
+  Qed.
+
+  Lemma card_store_of m x : rows_in m -> In x U -> card_of enc (store_of m) x = mlookup x m.
+  Proof.
+    intros R Hx. unfold card_of. induction m as [|[r c] m IH]; [reflexivity|].
+    cbn [store_of map fst snd sget mlookup].
+    assert (Hr : In r U) by (apply (R r c); left; reflexivity).
+    rewrite (enc_eqb r x Hr Hx). destruct (row_eqb r x); [reflexivity|].
+    apply IH. intros r' c' H. apply (R r' c'). right. exact H.
+  Qed.
+
+  Lemma keyed_store_of m : rows_in m -> keyed_on (store_of m).
+  Proof.
+    intros R k c r H. unfold store_of in H. apply in_map_iff in H as [[r' c'] [E Hin]]. cbn [fst snd] in E.
+    inversion E; subst. split; [reflexivity|]. apply (R r c). exact Hin.
+  Qed.
+
+  Lemma sget_In k s v : sget k s = Some v -> In (k, v) s.
+  Proof.
+    induction s as [|[k' v'] s IH]; cbn [sget]; [discriminate|].
+    destruct (N.eqb_spec k' k); intro H; [inversion H; subst; left; reflexivity|right; apply IH; exact H].
+  Qed.
+
+  Lemma positive_store_of m : forallb (fun e => 0 <? snd e) m = true -> positive (store_of m).
+  Proof.
+    intros P k c r H. apply sget_In in H. unfold store_of in H. apply in_map_iff in H as [[r' c'] [E Hin]].
+    cbn [fst snd] in E. inversion E; subst. rewrite forallb_forall in P. specialize (P _ Hin). cbn [snd] in P.
+    apply N.ltb_lt. exact P.
+  Qed.
+
+  Lemma mlookup_state_of s x : keyed_on s -> In x U -> mlookup x (state_of s) = card_of enc s x.
+  Proof.
+    intros K Hx. unfold card_of. induction s as [|[k [c r]] s IH]; [reflexivity|].
+    cbn [state_of map fst snd mlookup sget].
+    destruct (K k c r (or_introl eq_refl)) as [Ek Hr]. subst k.
+    rewrite (enc_eqb r x Hr Hx). destruct (row_eqb r x); [reflexivity|].
+    apply IH. intros k' c' r' H. apply (K k' c' r'). right. exact H.
+  Qed.
+
+  Lemma keyed_kmerge b l r : keyed_on b -> keyed_on l -> keyed_on r -> keyed_on (km_rows (kmerge b l r)).
+  Proof.
+    intros Kb Kl Kr k c x H. unfold kmerge in H. cbn [km_rows] in H.
+    apply in_flat_map in H as [k0 [_ H]].
+    destruct (fst (kmerge_key (sget k0 b) (sget k0 l) (sget k0 r))) as [v|] eqn:E; [|destruct H].
+    destruct H as [H|[]]. inversion H; subst. unfold kmerge_key in E.
+    destruct (negb (oentry_eqb (sget k b) (sget k l)) && negb (oentry_eqb (sget k b) (sget k r)));
+      [|destruct (negb (oentry_eqb (sget k b) (sget k r)))]; cbn [fst] in E; apply sget_In in E; eauto.
+  Qed.
+End OracleOnModel.
+
+Section OracleOnModel2.
+  Variable U : list row.
+  Hypothesis enc_inj : forall x y, In x U -> In y U -> enc x = enc y -> x = y.
+
+  Definition cardo (o : option (N * row)) : N := match o with Some (c, _) => c | None => 0 end.
+  Definition rowof (e : option (N * row) * option (N * row) * option (N * row)) : row :=
+    match e with
+    | (Some (_, x), _, _) => x | (None, Some (_, x), _) => x | (None, None, Some (_, x)) => x | _ => [] end.
+  Definition trc (ce : kconflict) : row * (N * N * N) :=
+    (rowof (snd ce), (cardo (fst (fst (snd ce))), cardo (snd (fst (snd ce))), cardo (snd (snd ce)))).
+
+  Lemma model_merge_conf b l r :
+    mo_conf (model_merge b l r) = map trc (km_conf (kmerge (store_of b) (store_of l) (store_of r))).
+  Proof. reflexivity. Qed.
+
+  Lemma rowof_keyed b l r k :
+    keyed_on U b -> keyed_on U l -> keyed_on U r ->
+    snd (kmerge_key (sget k b) (sget k l) (sget k r)) = true ->
+    enc (rowof (sget k b, sget k l, sget k r)) = k /\ In (rowof (sget k b, sget k l, sget k r)) U.
+  Proof.
+    intros Kb Kl Kr C. unfold rowof.
+    destruct (sget k b) as [[cb xb]|] eqn:Eb.
+    - apply sget_In in Eb. destruct (Kb _ _ _ Eb). split; [symmetry|]; assumption.
+    - destruct (sget k l) as [[cl xl]|] eqn:El.
+      + apply sget_In in El. destruct (Kl _ _ _ El). split; [symmetry|]; assumption.
+      + destruct (sget k r) as [[cr xr]|] eqn:Er.
+        * apply sget_In in Er. destruct (Kr _ _ _ Er). split; [symmetry|]; assumption.
+        * cbn in C. discriminate.
+  Qed.
+
+  Lemma clookup_conf b l r x ks :
+    keyed_on U b -> keyed_on U l -> keyed_on U r -> In x U ->
+    clookup x (map trc (flat_map (fun k => if snd (kmerge_key (sget k b) (sget k l) (sget k r))
+                                           then [(k, (sget k b, sget k l, sget k r))] else []) ks))
+    = if existsb (N.eqb (enc x)) ks
+      then (if snd (kmerge_key (sget (enc x) b) (sget (enc x) l) (sget (enc x) r))
+            then Some (cardo (sget (enc x) b), cardo (sget (enc x) l), cardo (sget (enc x) r)) else None)
+      else None.
+  Proof.
+    intros Kb Kl Kr Hx. induction ks as [|k ks IH]; cbn [flat_map existsb]; [reflexivity|].
+    rewrite map_app. destruct (snd (kmerge_key (sget k b) (sget k l) (sget k r))) eqn:C.
+    - cbv iota. cbn [map app clookup trc fst snd]. destruct (rowof_keyed b l r k Kb Kl Kr C) as [Ek Hin].
+      rewrite <- (enc_eqb U enc_inj _ _ Hin Hx), Ek, (N.eqb_sym (enc x) k).
+      destruct (N.eqb_spec k (enc x)) as [E|NE]; cbn [orb].
+      + subst k. rewrite C. reflexivity.
+      + refine (eq_trans IH _). reflexivity.
+    - cbv iota. cbn [map app]. refine (eq_trans IH _). destruct (N.eqb_spec (enc x) k) as [E|NE]; cbn [orb]; [|reflexivity].
+      subst k. rewrite C. destruct (existsb _ ks); reflexivity.
+  Qed.
+
+  Lemma kmerge_key_absent_all : snd (kmerge_key None None None) = false.
+  Proof. reflexivity. Qed.
+
+  Lemma clookup_model b l r x :
+    rows_in U b -> rows_in U l -> rows_in U r -> In x U ->
+    clookup x (mo_conf (model_merge b l r))
+    = let sb := store_of b in let sl := store_of l in let sr := store_of r in
+      if snd (kmerge_key (sget (enc x) sb) (sget (enc x) sl) (sget (enc x) sr))
+      then Some (cardo (sget (enc x) sb), cardo (sget (enc x) sl), cardo (sget (enc x) sr)) else None.
+  Proof.
+    intros Rb Rl Rr Hx. cbv zeta. rewrite model_merge_conf. unfold kmerge. cbn [km_conf].
+    rewrite clookup_conf by (try apply keyed_store_of; assumption).
+    destruct (existsb (N.eqb (enc x)) _) eqn:E; [reflexivity|].
+    assert (H : ~ In (enc x) (skeys (store_of b) ++ skeys (store_of l) ++ skeys (store_of r))).
+    { intro H. apply (nodup_In N.eq_dec) in H. apply (proj2 (existsb_eqb_In (enc x) _)) in H. congruence. }
+    rewrite !in_app_iff in H.
+    assert (Hb : sget (enc x) (store_of b) = None) by (apply sget_none_keys; tauto).
+    assert (Hl : sget (enc x) (store_of l) = None) by (apply sget_none_keys; tauto).
+    assert (Hr : sget (enc x) (store_of r) = None) by (apply sget_none_keys; tauto).
+    rewrite Hb, Hl, Hr. reflexivity.
+  Qed.
+
+  Definition pos_m (m : mstate) : Prop := forallb (fun e => 0 <? snd e) m = true.
+
+  Lemma merge_ok_at b l r x :
+    rows_in U b -> rows_in U l -> rows_in U r -> pos_m b -> pos_m l -> pos_m r -> In x U ->
+    (let '(c, cf) := merge_card (mlookup x b) (mlookup x l) (mlookup x r) in
+     (mlookup x (mo_state (model_merge b l r)) =? c)
+     && match clookup x (mo_conf (model_merge b l r)) with
+        | None => negb cf
+        | Some (cb, co, ct) => cf && (cb =? mlookup x b) && (co =? mlookup x l) && (ct =? mlookup x r)
+        end) = true.
+  Proof.
+    intros Rb Rl Rr Pb Pl Pr Hx.
+    pose proof (keyless_merge_spec enc (store_of b) (store_of l) (store_of r) x
+                  (positive_store_of b Pb) (positive_store_of l Pl) (positive_store_of r Pr)) as [V C].
+    rewrite kmerge_conflict_iff in C.
+    rewrite !(card_store_of U enc_inj) in V by assumption.
+    rewrite !(card_store_of U enc_inj) in C by assumption.
+    assert (S : mlookup x (mo_state (model_merge b l r)) = card_of enc (km_rows (kmerge (store_of b) (store_of l) (store_of r))) x).
+    { change (mo_state (model_merge b l r)) with (state_of (km_rows (kmerge (store_of b) (store_of l) (store_of r)))).
+      apply (mlookup_state_of U enc_inj); [|exact Hx].
+      apply keyed_kmerge; apply keyed_store_of; assumption. }
+    rewrite S, V. rewrite (clookup_model b l r x Rb Rl Rr Hx). cbv zeta.
+    assert (Cb : cardo (sget (enc x) (store_of b)) = mlookup x b) by (rewrite <- (card_store_of U enc_inj b x Rb Hx); reflexivity).
+    assert (Cl : cardo (sget (enc x) (store_of l)) = mlookup x l) by (rewrite <- (card_store_of U enc_inj l x Rl Hx); reflexivity).
+    assert (Cr : cardo (sget (enc x) (store_of r)) = mlookup x r) by (rewrite <- (card_store_of U enc_inj r x Rr Hx); reflexivity).
+    rewrite Cb, Cl, Cr.
+    destruct (merge_card (mlookup x b) (mlookup x l) (mlookup x r)) as [c cf]. cbn [fst snd] in *.
+    rewrite N.eqb_refl. cbn [andb].
+    destruct (snd (kmerge_key (sget (enc x) (store_of b)) (sget (enc x) (store_of l)) (sget (enc x) (store_of r)))).
+    - rewrite (proj1 C eq_refl), !N.eqb_refl. reflexivity.
+    - destruct cf; [specialize (proj2 C eq_refl); discriminate|reflexivity].
+  Qed.
+End OracleOnModel2.
+
+Definition input_rows (b l r : mstate) : list row := map fst b ++ map fst l ++ map fst r.
+
+Lemma rows_in_part (U : list row) (m : mstate) : incl (map fst m) U -> rows_in U m.
+Proof. intros H r c Hin. apply H. apply in_map_iff. exists (r, c). split; [reflexivity|exact Hin]. Qed.
+
+Theorem merge_oracle_on_model : forall b l r,
+  (forall x y, In x (input_rows b l r) -> In y (input_rows b l r) -> enc x = enc y -> x = y) ->
+  pos_m b -> pos_m l -> pos_m r ->
+  merge_ok b l r (model_merge b l r) = true.
+Proof.
+  intros b l r Inj Pb Pl Pr. set (U := input_rows b l r) in *.
+  assert (Rb : rows_in U b) by (apply rows_in_part; unfold U, input_rows; intros x H; apply in_or_app; left; exact H).
+  assert (Rl : rows_in U l) by (apply rows_in_part; unfold U, input_rows; intros x H; apply in_or_app; right; apply in_or_app; left; exact H).
+  assert (Rr : rows_in U r) by (apply rows_in_part; unfold U, input_rows; intros x H; apply in_or_app; right; apply in_or_app; right; exact H).
+  pose proof (keyed_store_of U b Rb) as Kb. pose proof (keyed_store_of U l Rl) as Kl. pose proof (keyed_store_of U r Rr) as Kr.
+  unfold merge_ok. rewrite !andb_true_iff. split; [split|].
+  - change (mo_class (model_merge b l r)) with (match km_conf (kmerge (store_of b) (store_of l) (store_of r)) with [] => 0 | _ => 1 end).
+    destruct (km_conf _); reflexivity.
+  - rewrite model_merge_conf.
+    change (mo_class (model_merge b l r)) with (match km_conf (kmerge (store_of b) (store_of l) (store_of r)) with [] => 0 | _ => 1 end).
+    destruct (km_conf _); reflexivity.
+  - apply forallb_forall. intros x Hx.
+    assert (HU : In x U).
+    { rewrite !in_app_iff in Hx. destruct Hx as [H|[H|[H|[H|H]]]].
+      - unfold U, input_rows. rewrite !in_app_iff. tauto.
+      - unfold U, input_rows. rewrite !in_app_iff. tauto.
+      - unfold U, input_rows. rewrite !in_app_iff. tauto.
+      - change (mo_state (model_merge b l r)) with (state_of (km_rows (kmerge (store_of b) (store_of l) (store_of r)))) in H.
+        unfold state_of in H. rewrite map_map in H. apply in_map_iff in H as [[k [c x']] [E Hin]]. cbn [fst snd] in E. subst x'.
+        destruct (keyed_kmerge U _ _ _ Kb Kl Kr k c x Hin) as [_ Hin']. exact Hin'.
+      - rewrite model_merge_conf, map_map in H. apply in_map_iff in H as [[k e] [E Hin]]. cbn [trc fst snd] in E. subst x.
+        unfold kmerge in Hin. cbn [km_conf] in Hin. apply in_flat_map in Hin as [k0 [_ Hin]].
+        destruct (snd (kmerge_key (sget k0 (store_of b)) (sget k0 (store_of l)) (sget k0 (store_of r)))) eqn:C; [|destruct Hin].
+        destruct Hin as [Hin|[]]. inversion Hin; subst.
+        destruct (rowof_keyed U _ _ _ k Kb Kl Kr C) as [_ Hin']. exact Hin'. }
+    apply (merge_ok_at U Inj b l r x Rb Rl Rr Pb Pl Pr HU).
+Qed.
+
+(* oracle_on_model (C27).  Full statement: for every input whose statement expansions are the
+   engine's (each op list implements its statement on the multiset before it), on whose rows [enc] is
+   injective and whose multiplicities are positive, [oracle i (model_obs i) = true].
+   Proved part: the two merge conjuncts (both directions).  Missing: the statement-by-statement
+   conjunct [steps_ok] — it needs the list-level glue between [run enc ops] and the GROUP BY view
+   (distinct rows, COUNT = sum, index probe) plus a characterisation of correct expansions; the
+   multiplicity part of it is keyless_refines_multiset. *)
+Theorem oracle_on_model_partial : forall i,
+  (forall x y, In x (input_rows (i_b i) (i_l i) (i_r i)) -> In y (input_rows (i_b i) (i_l i) (i_r i)) -> enc x = enc y -> x = y) ->
+  pos_m (i_b i) -> pos_m (i_l i) -> pos_m (i_r i) ->
+  merge_ok (i_b i) (i_l i) (i_r i) (o_lr (model_obs i)) = true
+  /\ merge_ok (i_b i) (i_r i) (i_l i) (o_rl (model_obs i)) = true.
+Proof.
+  intros i Inj Pb Pl Pr. split; apply merge_oracle_on_model; try assumption.
+  intros x y Hx Hy. apply Inj; unfold input_rows in *; rewrite !in_app_iff in *; tauto.
+Qed.
+
+(* entries of the conflict list carry the three stored values of their hash id *)
+Theorem kmerge_conflict_entry : forall b l r k e,
+  In (k, e) (km_conf (kmerge b l r)) -> e = (sget k b, sget k l, sget k r).
+Proof.
+  intros b l r k e H. unfold kmerge in H. cbn [km_conf] in H. apply in_flat_map in H as [k0 [_ H]].
+  destruct (snd (kmerge_key (sget k0 b) (sget k0 l) (sget k0 r))); [|destruct H].
+  destruct H as [H|[]]. inversion H. reflexivity.
+Qed.
+
+(* non-vacuity of the hypotheses of merge_oracle_on_model *)
+Example merge_oracle_hyps_satisfiable :
+  let b := [([Some 1; Some 1], 2); ([Some 2; None], 1)] in
+  let l := [([Some 1; Some 1], 3); ([Some 2; None], 1)] in
+  let r := [([Some 1; Some 1], 3)] in
+  merge_ok b l r (model_merge b l r) = true /\ mo_class (model_merge b l r) = 1.
+Proof. split; vm_compute; reflexivity. Qed.
